@@ -307,6 +307,16 @@ func colourSetting(v ssa.Value, depth int) bool {
 		if fa, ok := t.X.(*ssa.FieldAddr); ok {
 			return colourNamed(fieldName(fa.X.Type(), fa.Field))
 		}
+		// a variable of the enclosing function that a closure captured (getFormatValue(hasColor) returning a
+		// function that passes hasColor on)
+		if fv, ok := t.X.(*ssa.FreeVar); ok {
+			return colourNamed(fv.Name())
+		}
+		if al, ok := t.X.(*ssa.Alloc); ok && al.Comment != "" {
+			return colourNamed(al.Comment)
+		}
+	case *ssa.FreeVar:
+		return colourNamed(t.Name())
 	case *ssa.Phi:
 		for _, e := range t.Edges {
 			if !colourSetting(e, depth+1) {
@@ -498,7 +508,7 @@ func cmpParts(lit *ast.FuncLit) (string, token.Token, string, bool) {
 func init() {
 	register(&Property{
 		ID:    "C15",
-		Rules: []string{"C15-R1", "C15-R2", "C15-R3", "C15-R4", "C15-R5", "C15-R6", "C15-R7", "C15-R8", "C15-R9", "C15-R10", "C15-R11", "C06-R7", "C15-R12", "C15-R13", "C15-R14", "C05-R4", "C02-R10", "C07-R5", "C03-R2"},
+		Rules: []string{"C15-R1", "C15-R2", "C15-R3", "C15-R4", "C15-R5", "C15-R6", "C15-R7", "C15-R8", "C15-R9", "C15-R10", "C15-R11", "C06-R7", "C15-R12", "C15-R13", "C15-R14", "C05-R4", "C02-R10", "C16-R11", "C12-R6", "C07-R5", "C03-R2"},
 		Explain: "Decides that presentation switches are wired so that they cannot change numbers: C15-R1 the templates selectable through the same option show the same set of fields; C15-R3 every shorten width equals the width of the column the name is printed in; C15-R2 every colouring function, over colour on/off x sign(value), renders positive red, negative green, zero and colour-off plain, and stripped of escape sequences every rendering equals the plain one (same verb, same width); " +
 			"C15-R4 at the register's expansion sites what goes into the day's accumulator does not depend on totals-only (the switches gate lines only); C15-R5 each descending comparator is the ascending one mirrored; " +
 			"C15-R6 presentation flags declared on several levels (no-color) are read through the context lineage so either position works; " +
@@ -524,6 +534,8 @@ func init() {
 			ruleGlobalState(c, "C15-R9")
 			ruleConstFormats(c, "C15-R10", nil)
 			ruleNoByteSlicing(c, "C15-R11")
+			ruleEnvBoolFlags(c, "C16-R11")
+			ruleEmptinessTests(c, "C12-R6") // a block shown only for "more than one row" is shown by one rendering and not by the other
 			ruleNoAmountSkips(c, "C02-R10", func(p string) bool { return strings.HasPrefix(p, core.CmdPath) })
 			ruleGlobalState(c, "C05-R4") // state kept between days in a package variable shows in one rendering and not in the other
 			ruleRuneWidths(c, "C15-R14", func(p string) bool { return strings.HasPrefix(p, core.CmdPath) })
